@@ -1,6 +1,6 @@
 """atheris / libFuzzer targets with the semantic oracle inside the target.
 
-Run as:  python -m vp.fuzz.target <C07|C08> <outdir> <known-keys-json> [libFuzzer args...]
+Run as:  python -m vp.fuzz.target <C07|C08|C13> <outdir> <known-keys-json> [libFuzzer args...]
 
 Input layout: byte 0 selects configuration and route, the rest is data.
   C08: route = b0 & 3  (0 raw bytes -> parse, 1 class/ID/payload re-framed with
@@ -102,7 +102,39 @@ def main():
         for k, d in viol:
             report(k, d, {"kind": "tiny", "data": rest, "opts": opts})
 
-    fn = one_c08 if prop == "C08" else one_c07
+    from vp.props import c13
+
+    state0 = {}
+
+    def one_c13(data):
+        """Any frame, any mode: processing it leaves the package's tables and module-level
+        constants as they were (C13's clause; the comparison is against the state before
+        the first input - once something has changed, every new kind of change is reported)."""
+        if len(data) < 3 or hazardous(data):
+            return
+        import pyubx2
+
+        if not state0:
+            state0.update(c13.table_digests())
+        b0, rest = data[0], bytes(data[1:])
+        mode, bf = (b0 >> 2) & 3, (b0 >> 4) & 1
+        frame = codec.ubx_frame(rest[0:1], rest[1:2], rest[2:]) if b0 & 1 else rest
+        try:
+            m = pyubx2.UBXReader.parse(frame, msgmode=mode, parsebitfield=bf, validate=(b0 >> 5) & 1)
+            str(m)
+            stats["accepted"] += 1
+            stats["nontrivial"] += 1
+        except Exception:  # noqa - acceptance is not this oracle's business
+            stats["rejected"] += 1
+        if True:
+            now = c13.table_digests() if stats["runs"] % 5000 == 0 else c13.constants_digests()
+            for k_ in now:
+                if now[k_] != state0.get(k_):
+                    report(f"C13|module-state-changed|{k_}", f"{k_} differs after parsing {frame[:40].hex()} (mode {mode})",
+                           {"kind": "history", "ops": [["parse", frame, mode, bf]]})
+                    state0[k_] = now[k_]
+
+    fn = {"C08": one_c08, "C07": one_c07, "C13": one_c13}[prop]
 
     def test_one(data):
         stats["runs"] += 1
